@@ -1,2 +1,199 @@
-(** Placeholder until the proofs land. *)
-Require Import JF.Model.MultiMediator JF.Model.MultiMediatorCases.
+(** * Props/C20.v — Multi-process mediator commits the same events as the single-process mediator.
+
+    Model: JF.Model.MultiMediator (Level A: the two mediators over abstract oracles; Level B: one pipe with
+    its two events and the worker loop run_in_process).  Proofs: JF.Proofs.MultiMediatorProofs.
+
+    Hypothesis [sp_run_wf n s_init = true] (decidable, about the single-process reference run only):
+    in each of the n legs the activator names every handler at most once and only handlers without a
+    pending event, the scheduler is not empty, the selected candidate time is strictly smaller than every
+    other pending candidate time (see tie_sensitivity_refuted), and the committing handler is among its own
+    trashable events.  Out-state computations are functions of the in-state ([out_state] oracle): this is
+    the "draws no random numbers" clause of the property.  The schedule argument ranges over ALL lists of
+    batches of pipe indices. *)
+From Coq Require Import List ZArith Bool Arith.
+Require Import JF.Model.MultiMediator JF.Proofs.MultiMediatorProofs.
+Import ListNotations.
+
+(** ** commit_equivalence: same committed (handler, time, out-state) sequence, for every arrival schedule,
+    every core count, every number of legs. *)
+Theorem commit_equivalence :
+  forall (OS : Type) (ncores : nat) (has_args : H -> bool) (to_run : hist OS -> list H)
+         (ev_time : H -> hist OS -> Z) (out_state : H -> hist OS -> hist OS -> OS)
+         (trash_of : hist OS -> list H) (n : nat) (sched : list (list (list H))),
+    sp_run_wf OS has_args to_run ev_time out_state trash_of n (s_init OS) = true ->
+    exists m' s',
+      mp_run OS ncores has_args to_run ev_time out_state trash_of n sched (m_init OS) = inl m' /\
+      sp_run OS has_args to_run ev_time out_state trash_of n (s_init OS) = inl s' /\
+      m_hist OS m' = s_hist OS s'.
+Proof. exact commit_equivalence_thm. Qed.
+Print Assumptions commit_equivalence.
+
+Example commit_equivalence_nonvacuous :
+  Witness.w_sp_wf 5 = true /\
+  commits_of_m Z (Witness.w_mp 4 5 Witness.w_sched) = commits_of_s Z (Witness.w_sp 5) /\
+  length (match commits_of_s Z (Witness.w_sp 5) with Some l => l | None => [] end) = 5.
+Proof. vm_compute. repeat split. Qed.
+
+(** Same samples: the writes are a function of the commit sequence. *)
+Theorem writes_equivalence :
+  forall (OS : Type) (ncores : nat) (has_args : H -> bool) (to_run : hist OS -> list H)
+         (ev_time : H -> hist OS -> Z) (out_state : H -> hist OS -> hist OS -> OS)
+         (trash_of : hist OS -> list H) (writes_output : H -> bool) (n : nat) (sched : list (list (list H))),
+    sp_run_wf OS has_args to_run ev_time out_state trash_of n (s_init OS) = true ->
+    exists m' s',
+      mp_run OS ncores has_args to_run ev_time out_state trash_of n sched (m_init OS) = inl m' /\
+      sp_run OS has_args to_run ev_time out_state trash_of n (s_init OS) = inl s' /\
+      writes_of OS writes_output (m_hist OS m') = writes_of OS writes_output (s_hist OS s').
+Proof. exact writes_equal_thm. Qed.
+Print Assumptions writes_equivalence.
+
+Example writes_equivalence_nonvacuous :
+  match Witness.w_mp 4 5 Witness.w_sched with
+  | inl m => length (writes_of Z (fun h => Nat.eqb h 2) (m_hist Z m)) = 1
+  | inr _ => False
+  end.
+Proof. vm_compute. reflexivity. Qed.
+
+(** ** no_protocol_error (mediator level): for every schedule the multi-process run reaches no MediatorError
+    ("Event Process not ready!"), no empty scheduler, no missing entry of _out_states and no failed
+    idle-assert: [mp_run] returns [inl].  (The "already finished" branch is Level B: channel_safe.) *)
+Theorem no_protocol_error :
+  forall (OS : Type) (ncores : nat) (has_args : H -> bool) (to_run : hist OS -> list H)
+         (ev_time : H -> hist OS -> Z) (out_state : H -> hist OS -> hist OS -> OS)
+         (trash_of : hist OS -> list H) (n : nat) (sched : list (list (list H))),
+    sp_run_wf OS has_args to_run ev_time out_state trash_of n (s_init OS) = true ->
+    exists m', mp_run OS ncores has_args to_run ev_time out_state trash_of n sched (m_init OS) = inl m'.
+Proof. exact no_error_thm. Qed.
+Print Assumptions no_protocol_error.
+
+Example no_protocol_error_nonvacuous :
+  exists m', Witness.w_mp 3 5 [[[3; 2]; [1]; [0]]; []; [[1]]]%nat = inl m' /\ m_skip Z m' = 0.
+Proof. eexists. vm_compute. split; reflexivity. Qed.
+
+(** While the receive loop still misses an event time, some pipe of the leg has an outstanding event-time
+    request — after any sequence of arrivals.  Together with worker_answers: connection.wait returns. *)
+Theorem wait_never_starves :
+  forall (OS : Type) (ncores : nat) (has_args : H -> bool) (to_run : hist OS -> list H)
+         (ev_time : H -> hist OS -> Z) (out_state : H -> hist OS -> hist OS -> OS)
+         (trash_of : hist OS -> list H) (m : mstate OS) (s : sstate OS) (choices : list H),
+    R OS has_args out_state m s ->
+    sp_leg_wf OS has_args to_run ev_time out_state trash_of s = true ->
+    let hist0 := m_hist OS m in
+    let pipes := to_run hist0 in
+    exists m1, fold_left (m_start OS hist0) pipes (inl m) = inl m1 /\
+               let l := process_batch OS ncores has_args ev_time out_state hist0 pipes (length pipes) choices
+                                      (mkL OS m1 [] 0) in
+               l_rec OS l < length pipes -> exists p, In p pipes /\ m_stg OS (l_m OS l) p = ETS.
+Proof. exact wait_never_starves_thm. Qed.
+Print Assumptions wait_never_starves.
+
+Example wait_never_starves_nonvacuous :
+  R Z Witness.w_has_args Witness.w_out_state (m_init Z) (s_init Z) /\
+  sp_leg_wf Z Witness.w_has_args Witness.w_to_run Witness.w_ev_time Witness.w_out_state Witness.w_trash_of
+            (s_init Z) = true.
+Proof. split; [exact (R_init Z Witness.w_has_args Witness.w_out_state) | vm_compute; reflexivity]. Qed.
+
+(** ** Level B: every interleaving of mediator actions (with the guards of the code) and worker steps, on
+    one pipe: neither the worker's error branches / asserts nor the mediator's "already finished" branch are
+    reachable; a pipe holds an object only while the stage announces it (and of the announced kind); an idle
+    or suspended worker is blocked and its pipe is empty. *)
+Theorem channel_safe :
+  forall (ne no : bool) (l : list act),
+    let c := crun ne no l chan_init in
+    k_werr c = false /\ k_merr c = false /\ k_start c && k_cont c = false /\
+    (k_out c <> [] -> (k_stage c = ETS /\ k_out c = [MTime]) \/ (k_stage c = OSS /\ k_out c = [MOut])) /\
+    ((k_stage c = Idle \/ k_stage c = Susp) -> k_out c = [] /\ wstep ne no c = None).
+Proof. exact channel_safe_thm. Qed.
+Print Assumptions channel_safe.
+
+Example channel_safe_nonvacuous :
+  let c := crun true true [AM AStart; AW; AW; AM ARecv; AM ACont; AW; AW; AM ABlockRecv; AM AStart; AW; AW] chan_init in
+  k_stage c = ETS /\ k_pc c = W1 /\ k_out c = [MTime] /\ k_args c = 0.
+Proof. vm_compute. repeat split. Qed.
+
+(** The worker answers every request within three steps, none of which blocks. *)
+Theorem worker_answers :
+  forall (ne no : bool) (l : list act),
+    let c := crun ne no l chan_init in
+    (k_stage c = ETS \/ k_stage c = OSS) -> exists k, k <= 3 /\ k_out (wsteps ne no k c) <> [].
+Proof. exact worker_answers_thm. Qed.
+Print Assumptions worker_answers.
+
+Example worker_answers_nonvacuous :
+  let c := crun true false [AM AStart; AW; AW; AM ARecv; AM ATrashSusp; AM AStart] chan_init in
+  k_stage c = ETS /\ k_pc c = W1 /\ k_out (wsteps true false 2 c) = [] /\ k_out (wsteps true false 3 c) = [MTime].
+Proof. vm_compute. repeat split. Qed.
+
+(** ** precomputed_used_or_discarded: at every leg boundary an out-state kept in _out_states belongs to a
+    handler whose event is still pending (it was not trashed since the request: a trashed handler's
+    pre-computed out-state has been discarded), the handler has no out-state arguments and is idle, and the
+    stored out-state is the one of the handler's latest in-state.  (That every committed out-state is the
+    single-process one is commit_equivalence.) *)
+Theorem precomputed_used_or_discarded :
+  forall (OS : Type) (ncores : nat) (has_args : H -> bool) (to_run : hist OS -> list H)
+         (ev_time : H -> hist OS -> Z) (out_state : H -> hist OS -> hist OS -> OS)
+         (trash_of : hist OS -> list H) (n : nat) (sched : list (list (list H))) (m' : mstate OS),
+    sp_run_wf OS has_args to_run ev_time out_state trash_of n (s_init OS) = true ->
+    mp_run OS ncores has_args to_run ev_time out_state trash_of n sched (m_init OS) = inl m' ->
+    forall h os, m_ost OS m' h = Some os ->
+                 In h (map fst (m_pend OS m')) /\ has_args h = false /\ m_stg OS m' h = Idle /\
+                 os = out_state h (m_het OS m' h) (m_het OS m' h).
+Proof. exact precomputed_thm. Qed.
+Print Assumptions precomputed_used_or_discarded.
+
+Example precomputed_nonvacuous :
+  (* 4 cores; in leg 1 the out-states of 0 and 2 are started ahead and the one of 2 also arrives ahead *)
+  exists m', Witness.w_mp 4 1 [[[0]; [2]; [1]; [2; 3]]]%nat = inl m' /\
+             m_ost Z m' 2%nat = Some 2000%Z /\ m_ost Z m' 0%nat = None.
+Proof. eexists. vm_compute. repeat split. Qed.
+
+(** ** workers_idle_at_commit: what holds — no handler is in stage event_time_started at a leg boundary, and
+    every handler without a pending event (never started, or trashed: in particular the handler that just
+    committed) is idle with no stored out-state ... *)
+Theorem stages_at_leg_boundary :
+  forall (OS : Type) (ncores : nat) (has_args : H -> bool) (to_run : hist OS -> list H)
+         (ev_time : H -> hist OS -> Z) (out_state : H -> hist OS -> hist OS -> OS)
+         (trash_of : hist OS -> list H) (n : nat) (sched : list (list (list H))) (m' : mstate OS),
+    sp_run_wf OS has_args to_run ev_time out_state trash_of n (s_init OS) = true ->
+    mp_run OS ncores has_args to_run ev_time out_state trash_of n sched (m_init OS) = inl m' ->
+    forall h, m_stg OS m' h <> ETS /\
+              (~ In h (map fst (m_pend OS m')) -> m_stg OS m' h = Idle /\ m_ost OS m' h = None).
+Proof. exact stages_at_leg_boundary_thm. Qed.
+Print Assumptions stages_at_leg_boundary.
+
+Example stages_at_leg_boundary_nonvacuous :
+  exists m', Witness.w_mp 4 2 Witness.w_sched = inl m' /\ m_stg Z m' 1%nat = Idle /\ m_stg Z m' 3%nat = Susp.
+Proof. eexists. vm_compute. repeat split. Qed.
+
+(** ... but NOT "all workers idle at a commit": a worker whose out-state was started ahead may still be
+    computing (stage out_state_started) when another handler commits. *)
+Theorem workers_idle_at_commit_refuted :
+  exists (ncores : nat) (sched : list (list (list H))) (m' : mstate Z),
+    Witness.w_sp_wf 1 = true /\
+    mp_run Z ncores Witness.w_has_args Witness.w_to_run Witness.w_ev_time Witness.w_out_state Witness.w_trash_of
+           1 sched (m_init Z) = inl m' /\
+    m_stg Z m' 2 = OSS.
+Proof.
+  exists 4, Witness.w_sched. destruct Witness.busy_witness as (m' & Hm & Hs & _).
+  exists m'. split; [vm_compute; reflexivity|]. split; [exact Hm | exact Hs].
+Qed.
+Print Assumptions workers_idle_at_commit_refuted.
+
+(** ** tie_sensitivity_refuted: without the strict-minimum hypothesis the statement is false of the faithful
+    model — with two equal candidate times the arrival order decides which handler the scheduler returns
+    (one schedule agrees with the single-process mediator, another does not). *)
+Theorem tie_sensitivity_refuted :
+  exists (ncores : nat) (has_args : H -> bool) (to_run : hist Z -> list H) (ev_time : H -> hist Z -> Z)
+         (out_state : H -> hist Z -> hist Z -> Z) (trash_of : hist Z -> list H) (n : nat)
+         (sched1 sched2 : list (list (list H))),
+    commits_of_m Z (mp_run Z ncores has_args to_run ev_time out_state trash_of n sched1 (m_init Z)) =
+    commits_of_s Z (sp_run Z has_args to_run ev_time out_state trash_of n (s_init Z)) /\
+    commits_of_m Z (mp_run Z ncores has_args to_run ev_time out_state trash_of n sched2 (m_init Z)) <>
+    commits_of_s Z (sp_run Z has_args to_run ev_time out_state trash_of n (s_init Z)) /\
+    commits_of_m Z (mp_run Z ncores has_args to_run ev_time out_state trash_of n sched2 (m_init Z)) <> None.
+Proof.
+  exists 2, Witness.w_has_args, Witness.w_to_run, Witness.t_ev_time, Witness.w_out_state, Witness.w_trash_of, 1,
+         [[[0]; [1]; [2]; [3]]], [[[1]; [0]; [2]; [3]]].
+  exact Witness.tie_witness.
+Qed.
+Print Assumptions tie_sensitivity_refuted.
